@@ -647,6 +647,26 @@ func init() {
 			cases++
 		}
 		distinct["concurrent-first-use"] = true
+		// one pass can carry any number of samples for one bucket (a burst between two report passes): the exposed
+		// count is the sum of what was reported, whatever the size of the burst
+		for _, burst := range []int64{1, 65535, 65536, 65537, 200000} {
+			reg := prom.NewRegistry()
+			rep := tprom.NewReporter(tprom.Options{Registerer: reg})
+			hb := rep.AllocateHistogram("bulk", map[string]string{"k": "v"}, tally.ValueBuckets{1, 2})
+			hb.ValueBucket(1, 2).ReportSamples(burst)
+			hb.ValueBucket(1, 2).ReportSamples(3)
+			hb.ValueBucket(2, math.MaxFloat64).ReportSamples(2)
+			exposed := int64(-1)
+			if fams, err := reg.Gather(); err == nil {
+				for _, f := range fams {
+					if f.GetName() == "bulk" && len(f.GetMetric()) == 1 {
+						exposed = int64(f.GetMetric()[0].GetHistogram().GetSampleCount())
+					}
+				}
+			}
+			tr.Emit(M{"e": "bulk", "reported": burst + 5, "exposed": exposed})
+			evals++
+		}
 		tr.Close()
 		writeMeta(cm.out, M{"cases": cases, "events": tr.N, "evals": evals, "distinct": len(distinct), "samples": samples})
 	})
